@@ -1,4 +1,5 @@
 from dataclasses import dataclass, field
+import re
 from functools import cached_property, partial, partialmethod
 
 
